@@ -60,8 +60,6 @@ where
         proof {
             assert(r.remaining() =~= self.edge_refs()) by {
                 assert forall|k: int| 0 <= k < self.edges@.len() implies r.rest()[k] == er_of::<E, Ix>(self.edges@, k, false) by {
-                    Ix::ix_bound(r.rest()[k].index.0);
-                    if k <= Ix::spec_max() { Ix::new_law(k as usize); Ix::ix_inj(r.rest()[k].index.0, Ix::spec_new(k as usize)); }
                 }
             }
         }
